@@ -194,6 +194,9 @@ def run_harness(variant, args, env=None, timeout=900, stdin=None):
     e.pop("IPC_VERIF_TRACE", None)
     e.pop("IPC_VERIF_SEQ", None)
     e.pop("IPC_VERIF_SENDBUF", None)
+    # errno is poisoned with EINTR before every real recv/recvmsg/send/sendmsg/poll of the code under test: a stale errno
+    # is what a successful call leaves behind in real life too; code that consults it without a failure is exposed
+    e["IPC_VERIF_ERRNO_POISON"] = "4"
     if env:
         e.update({k: str(v) for k, v in env.items()})
     if "IPC_VERIF_TRACE" in e and "IPC_VERIF_SEQ" not in e:
@@ -207,6 +210,10 @@ def run_harness(variant, args, env=None, timeout=900, stdin=None):
                            errors="replace")
     except subprocess.TimeoutExpired as ex:
         raise ToolError("harness %s timed out after %ds" % (args, timeout)) from ex
+    # trouble of the harness itself, not of the code under test: it could not start one of its helper processes
+    # (e.g. its binary was replaced while it ran)
+    if re.search(r"spawn (agent|client|fifo-child|sched-child|lsfd)[^\n]*: Os \{ code: (2|11|12|24),", p.stderr or ""):
+        raise ToolError("harness could not spawn a helper process: %s" % (p.stderr or "")[-400:])
     return p
 
 
